@@ -2430,6 +2430,88 @@ def inline_object_aliases(func):
     return Func(func.module, func.qualname, node, func.cls, func.parent)
 
 
+def plain_statements(func):
+    """A Func with four statement-level spellings written out (each a pure syntactic equivalence):
+      for m in map(F, xs): B            ->  for x__ in xs: m = F(x__); B
+      P = re.compile(C) ... P.meth(a)   ->  re.meth(C, a)            (P a local bound once to a compiled literal pattern)
+      a = b = v                         ->  a = v; b = v               (v a name or constant)
+      d.setdefault(k, v)  (statement)   ->  if k not in d: d[k] = v    (k, v names / constants / access paths)"""
+    import copy
+
+    node = copy.deepcopy(func.node)
+    changed = [False]
+    stores = {}
+    for n in ast.walk(node):
+        if isinstance(n, ast.Name) and isinstance(n.ctx, ast.Store):
+            stores[n.id] = stores.get(n.id, 0) + 1
+    compiled = {}
+    for st in walk_stmts(node.body):
+        if isinstance(st, ast.Assign) and len(st.targets) == 1 and isinstance(st.targets[0], ast.Name) and stores.get(st.targets[0].id) == 1 and isinstance(st.value, ast.Call) and norm(st.value.func) == "re.compile" and len(st.value.args) == 1 and isinstance(st.value.args[0], ast.Constant) and isinstance(st.value.args[0].value, str) and not st.value.keywords:
+            compiled[st.targets[0].id] = st.value.args[0]
+
+    class Rx(ast.NodeTransformer):
+        def visit_Call(self, c):
+            self.generic_visit(c)
+            if isinstance(c.func, ast.Attribute) and isinstance(c.func.value, ast.Name) and c.func.value.id in compiled and c.func.attr in ("match", "fullmatch", "search", "findall", "finditer", "split", "sub"):
+                changed[0] = True
+                return ast.copy_location(ast.Call(func=ast.Attribute(value=ast.Name(id="re", ctx=ast.Load()), attr=c.func.attr, ctx=ast.Load()), args=[copy.deepcopy(compiled[c.func.value.id])] + c.args, keywords=c.keywords), c)
+            return c
+
+        def visit_Attribute(self, a):
+            self.generic_visit(a)
+            return a
+
+    def simple(e):
+        while isinstance(e, (ast.Attribute, ast.Subscript)):
+            if isinstance(e, ast.Subscript) and not isinstance(e.slice, (ast.Constant, ast.Name)):
+                return False
+            e = e.value
+        return isinstance(e, (ast.Name, ast.Constant))
+
+    counter = [0]
+
+    def block(stmts):
+        out = []
+        for st in stmts:
+            for fld in ("body", "orelse", "finalbody"):
+                lst = getattr(st, fld, None)
+                if isinstance(lst, list) and lst and isinstance(lst[0], ast.stmt) and not isinstance(st, (ast.FunctionDef, ast.AsyncFunctionDef, ast.ClassDef)):
+                    setattr(st, fld, block(lst))
+            if isinstance(st, ast.Try):
+                for h in st.handlers:
+                    h.body = block(h.body)
+            if isinstance(st, ast.For) and isinstance(st.iter, ast.Call) and isinstance(st.iter.func, ast.Name) and st.iter.func.id == "map" and len(st.iter.args) == 2 and not st.iter.keywords and isinstance(st.target, ast.Name):
+                counter[0] += 1
+                x = f"item__{counter[0]}"
+                fn, xs = st.iter.args
+                bind = ast.copy_location(ast.Assign(targets=[ast.Name(id=st.target.id, ctx=ast.Store())], value=ast.Call(func=fn, args=[ast.Name(id=x, ctx=ast.Load())], keywords=[])), st)
+                st.target = ast.Name(id=x, ctx=ast.Store())
+                st.iter = xs
+                st.body = [bind] + st.body
+                changed[0] = True
+            if isinstance(st, ast.Assign) and len(st.targets) > 1 and isinstance(st.value, (ast.Name, ast.Constant)):
+                for t in st.targets:
+                    out.append(ast.copy_location(ast.Assign(targets=[t], value=copy.deepcopy(st.value)), st))
+                changed[0] = True
+                continue
+            if isinstance(st, ast.Expr) and isinstance(st.value, ast.Call) and isinstance(st.value.func, ast.Attribute) and st.value.func.attr == "setdefault" and len(st.value.args) == 2 and not st.value.keywords and simple(st.value.func.value) and all(simple(a) for a in st.value.args):
+                d, (k, v) = st.value.func.value, st.value.args
+                store = ast.copy_location(ast.Assign(targets=[ast.Subscript(value=copy.deepcopy(d), slice=copy.deepcopy(k), ctx=ast.Store())], value=v), st)
+                out.append(ast.copy_location(ast.If(test=ast.Compare(left=copy.deepcopy(k), ops=[ast.NotIn()], comparators=[copy.deepcopy(d)]), body=[store], orelse=[]), st))
+                changed[0] = True
+                continue
+            out.append(st)
+        return out
+
+    node.body = block(node.body)
+    if compiled:
+        node = Rx().visit(node)
+    if not changed[0]:
+        return func
+    ast.fix_missing_locations(node)
+    return Func(func.module, func.qualname, node, func.cls, func.parent)
+
+
 def make_resolver(stmts, depth=4):
     """res(expr) -> expr with the names that are bound exactly once in `stmts` (plain assignments; tuple targets unpacked
     from a name / subscript are read as its elements) replaced by their definitions, repeatedly.  Returns an AST."""
